@@ -1636,15 +1636,17 @@ Section CapMain2.
       + intros H. destruct (cm_lookup_fwd _ _ H) as (Hold & Hn & Hne).
         destruct (proj1 (inv_lookup s I k e) Hold) as (lid & v & Ht & (r & i & n & ss & p & Hd & Hk)).
         exists lid, v. split; [apply cm_surv_tget; auto|].
-        destruct (cm_surv_obj _ _ Ht Hn Hne) as (i2 & n2 & ss2 & y & y' & H1 & H2). rewrite Hd in H1. inversion H1; subst.
+        destruct (cm_surv_obj _ _ Ht Hn Hne) as (i2 & n2 & ss2 & y & y' & H1 & H2). rewrite Hd in H1.
+        inversion H1 as [[E1 E2 E3 E4 E5]]. rewrite E4 in Hk.
         exists e, i2, n2, ss2, y'. split; auto.
       + intros (lid & v & Ht & (r & i & n & ss & p & Hd & Hk)).
         destruct (cm_Ft_inv _ _ Ht) as (Hn & [[-> ->]|[Hne Hts]]); [rewrite HnbF in Hd; discriminate|].
-        destruct (cm_surv_obj _ _ Hts Hn Hne) as (i2 & n2 & ss2 & y & y' & H1 & H2). rewrite Hh, H2 in Hd. inversion Hd; subst.
+        destruct (cm_surv_obj _ _ Hts Hn Hne) as (i2 & n2 & ss2 & y & y' & H1 & H2). rewrite Hh, H2 in Hd.
+        inversion Hd as [[E1 E2 E3 E4 E5]]. rewrite <- E4 in Hk.
         rewrite cm_Flk. apply cl_keep.
-        * rewrite map_app, in_app_iff. intros [Hin|[<-|[]]]; [|congruence].
-          apply in_map_iff in Hin. destruct Hin as (c & <- & Hc). apply Hn. now apply cm_cl_fst.
-        * apply (inv_lookup s I). exists lid, v. split; auto. exists r, i, n, ss, y. auto.
+        * rewrite map_app, in_app_iff. intros [Hin|[Heq|[]]]; [|cbn [fst] in Heq; congruence].
+          apply in_map_iff in Hin. destruct Hin as (c & Hce & Hc). apply Hn. pose proof (cm_cl_fst _ Hc) as Hf. rewrite Hce in Hf. first [exact Hf | rewrite E1; exact Hf].
+        * apply (inv_lookup s I). exists lid, v. split; [first [exact Hts | rewrite <- E1; exact Hts]|]. unfold has_key. eauto 10.
     - intros k.
       assert (Hord : ordered (t_desc (tr s)) (lk_list sF k)).
       { rewrite cm_Flk. apply (cl_closed (ordered (t_desc (tr s)))); [|apply (inv_order s I)].
@@ -1664,7 +1666,8 @@ Section CapMain2.
     - intros k. rewrite cm_Flk. apply (cl_closed (fun l => NoDup l)); [|apply (inv_lk_nodup s I)].
       intros l e l' Hr Hq. apply (rfl_nodup _ _ _ Hr Hq).
     - intros r x r' i n ss p Ht Hd. destruct (cm_Ft_inv _ _ Ht) as (Hn & [[-> ->]|[Hne Hts]]); [rewrite HnbF in Hd; discriminate|].
-      destruct (cm_surv_obj _ _ Hts Hn Hne) as (i2 & n2 & ss2 & y & y' & H1 & H2). rewrite Hh, H2 in Hd. inversion Hd; subst.
+      destruct (cm_surv_obj _ _ Hts Hn Hne) as (i2 & n2 & ss2 & y & y' & H1 & H2). rewrite Hh, H2 in Hd.
+      inversion Hd as [[E1 E2 E3 E4 E5]]. rewrite <- E4.
       eapply (inv_keys_nodup s I); eauto.
     - exact HR9.
   Qed.
